@@ -45,9 +45,13 @@ func (k Keeper) HandleRelay(ctx sdk.Ctx, relay pc.Relay) (*pc.RelayResponse, sdk
 	// retrieve the nonNative blockchains your node is hosting
 	hostedBlockchains := k.GetHostedBlockchains()
 
+	// the uniqueness and limit checks of the validation and the storing of the proof must not interleave with
+	// another relay served by the same node (or with the sealing of its evidence for a claim)
+	servicerNode.EvidenceMutex.Lock()
 	// ensure the validity of the relay
 	maxPossibleRelays, err := relay.Validate(ctx, k.posKeeper, k.appKeeper, k, hostedBlockchains, sessionBlockHeight, servicerNode)
 	if err != nil {
+		servicerNode.EvidenceMutex.Unlock()
 		if pc.GlobalPocketConfig.RelayErrors {
 			ctx.Logger().Error(
 				fmt.Sprintf("could not validate relay for app: %s for chainID: %v with error: %s",
@@ -71,6 +75,7 @@ func (k Keeper) HandleRelay(ctx sdk.Ctx, relay pc.Relay) (*pc.RelayResponse, sdk
 	}
 	// store the proof before execution, because the proof corresponds to the previous relay
 	relay.Proof.Store(maxPossibleRelays, servicerNode.EvidenceStore)
+	servicerNode.EvidenceMutex.Unlock()
 	// attempt to execute
 	respPayload, err := relay.Execute(hostedBlockchains, &servicerNodeAddr)
 	if err != nil {
